@@ -628,10 +628,8 @@ impl<
     fn next(&mut self) -> Option<Self::Item> {
         match self {
             Self::Spilled(spilled, snapshot) => {
-                // First drain from half_constructed
-                if let Some(item) = spilled.half_constructed.next() {
-                    let item = item;
-
+                // First drain from half_constructed, skipping removed elements
+                for item in spilled.half_constructed.by_ref() {
                     if snapshot.removed.contains(&item).not() {
                         return Some(item);
                     }
